@@ -23,6 +23,7 @@ TRANSPARENT_METHODS = {
     "alloc::sync::Arc::<T, A>::as_ptr", "core::ptr::non_null::NonNull::<T>::as_ptr",
     "core::ptr::non_null::NonNull::<T>::as_ref", "core::ptr::non_null::NonNull::<T>::as_mut",
     "core::convert::Into::into", "core::convert::From::from",
+    "core::future::into_future::IntoFuture::into_future",
 }
 
 
@@ -452,6 +453,34 @@ class Body:
                 return self.producer_call({"c": [r["p"][0], []]}, depth + 1)
         return None
 
+    def origin_call(self, op, depth=0):
+        """Like producer_call, but looks through transparent calls (deref, Pin::new_unchecked,
+        into_future, ...): the first non-transparent call the value comes from."""
+        e = self.producer_call(op, depth)
+        n = 0
+        while e is not None and e.kind == "call" and e.callee in TRANSPARENT_METHODS and e.args and n < 12:
+            e = self.producer_call(e.args[0])
+            n += 1
+        return e
+
+    def awaits(self):
+        """[(poll call event, future-creating call event or None, ready edges)] for every `.await`
+        (and hand-written poll of a sub-future) in this body."""
+        out = []
+        for e in self.calls():
+            if e.callee == "core::future::future::Future::poll" and e.args:
+                src = self.origin_call(e.args[0])
+                edges = []
+                dest = e.data["d"][0]
+                for blk in range(len(self.blocks)):
+                    if self.is_cleanup(blk):
+                        continue
+                    t = self.term(blk)
+                    if t["k"] == "switch" and t.get("on", {}).get("kind") == "discr" and t["on"]["p"][0] == dest and t["on"]["p"][1] == []:
+                        edges.extend(self.edges_by_label(blk).get("Ready", []))
+                out.append((e, src, edges))
+        return out
+
     # ---------- switch analysis ----------
     def switch_source(self, b):
         """For a switch terminator at block b, describe what is switched on:
@@ -620,3 +649,148 @@ class Program:
                     seen.add(c)
                     dq.append(c)
         return seen
+
+
+# ---------------------------------------------------------------------------
+# data-flow helpers (intra-procedural, flow-insensitive over definitions)
+# ---------------------------------------------------------------------------
+
+def operand_sources(body, op, max_nodes=400):
+    """Backward slice over definitions: all events (calls/assigns) and argument locals that can
+    contribute to the value of `op`. Returns (events, arg_locals, consts)."""
+    evs, args, consts = [], set(), []
+    seen = set()
+    work = []
+
+    def push_op(o):
+        p = op_place(o)
+        if p is not None:
+            work.append(p[0])
+        else:
+            c = op_const(o)
+            if c is not None:
+                consts.append(c)
+
+    push_op(op)
+    n = 0
+    while work and n < max_nodes:
+        l = work.pop()
+        if l in seen:
+            continue
+        seen.add(l)
+        n += 1
+        if 1 <= l <= body.argc:
+            args.add(l)
+        for e in body.defs.get(l, []):
+            evs.append(e)
+            if e.kind == "call":
+                for a in e.args:
+                    push_op(a)
+            else:
+                r = e.data["r"]
+                k = r["k"]
+                if k in ("use", "cast", "repeat"):
+                    push_op(r["o"])
+                elif k in ("ref", "rawptr", "discr"):
+                    work.append(r["p"][0])
+                elif k == "bin":
+                    push_op(r["a"])
+                    push_op(r["b"])
+                elif k == "un":
+                    push_op(r["a"])
+                elif k in ("agg", "closure", "tuple", "array", "rawagg"):
+                    for o in r["ops"]:
+                        push_op(o)
+    return evs, args, consts
+
+
+def derives_from_call(body, op, pred):
+    """Does the value of `op` data-depend on the result of a call satisfying pred(event)?"""
+    evs, _, _ = operand_sources(body, op)
+    return [e for e in evs if e.kind == "call" and pred(e)]
+
+
+def alias_locals(body, root_local):
+    """Locals that receive (a move/copy of) root_local or of one of its variant payloads
+    (`(x as Some).0`, `(x as Ready).0`, `(x as Ok).0`)."""
+    out = {root_local}
+    changed = True
+    while changed:
+        changed = False
+        for e in body.events:
+            if e.kind != "assign":
+                continue
+            r = e.data["r"]
+            if r["k"] != "use":
+                continue
+            p = op_place(r["o"])
+            if p is None or p[0] not in out:
+                continue
+            proj = [x for x in p[1]]
+            ok = (not proj) or all(x.startswith("@") or x in (".0",) for x in proj)
+            if not ok:
+                continue
+            d = e.data["p"]
+            if d[1] == [] and d[0] not in out:
+                out.add(d[0])
+                changed = True
+    return out
+
+
+def guard_held_positions(body, acquire, success_edges=None):
+    """Positions at which the guard produced by call event `acquire` is certainly still held.
+    success_edges: block edges on which the acquisition succeeded (e.g. the `Some` edge of a
+    try_lock, the `Ready` edge of a lock future's poll); None = the call's normal return."""
+    dest = acquire.data["d"][0]
+    gl = alias_locals(body, dest)
+    # kill events: drop terminators / mem::drop calls / moves into other calls of a guard local,
+    # unless the local was moved into another guard local beforehand (then it is an empty shell)
+    moved_from = {}
+    for e in body.events:
+        if e.kind == "assign" and e.data["r"]["k"] == "use":
+            p = op_place(e.data["r"]["o"])
+            if p is not None and p[0] in gl and "m" in e.data["r"]["o"] and e.data["p"][0] in gl and e.data["p"][0] != p[0]:
+                moved_from.setdefault(p[0], []).append(e.pos)
+    kills = set()
+    for e in body.events:
+        if e.kind == "drop" and e.data["p"][0] in gl and e.data["p"][1] == []:
+            l = e.data["p"][0]
+            if l in moved_from and all(body.dominated_by_any(e.pos, {mp}) for mp in moved_from[l][:1]):
+                continue
+            kills.add(e.pos)
+        elif e.kind == "call" and e is not acquire:
+            for a in e.args:
+                if "m" in a and a["m"][0] in gl and a["m"][1] == []:
+                    # the guard itself is moved into a callee (mem::drop, or handed over)
+                    kills.add(e.pos)
+        elif e.kind == "dead" and e.data["dead"] in gl:
+            l = e.data["dead"]
+            if l in moved_from:
+                continue
+            kills.add(e.pos)
+    # start positions
+    if success_edges:
+        starts = [(t, 0) for (_, t) in success_edges]
+        strict = False
+    else:
+        starts = [acquire.pos]
+        strict = True
+    held = set()
+    for s in starts:
+        held |= body.pos_reach_set(s, removed=frozenset(kills), strict=strict)
+    # must: remove positions reachable from entry without the acquisition, or from a kill without re-acquiring
+    if success_edges:
+        not_dom = body.entry_reach_set(removed_edges=frozenset(success_edges))
+        # positions reachable avoiding the success edges entirely
+        # (entry_reach_set with removed edges still includes blocks reached via other edges)
+    else:
+        not_dom = body.entry_reach_set(removed=frozenset([acquire.pos]))
+    held -= not_dom
+    after_kill = set()
+    for k in kills:
+        if k in held or True:
+            rem_e = frozenset(success_edges) if success_edges else frozenset()
+            rem_p = frozenset() if success_edges else frozenset([acquire.pos])
+            after_kill |= body.pos_reach_set(k, removed=rem_p, removed_edges=rem_e, strict=True)
+    held -= after_kill
+    return held, kills, gl
